@@ -131,3 +131,21 @@ func HostileNonTrivial(s string) bool {
 	}
 	return false
 }
+
+// HostileSingles is the fixed list of single hostile strings used by the exhaustive
+// setter x string enumeration (marker included so that injected fields are attributable).
+func HostileSingles(marker string) []string {
+	out := []string{
+		marker + "\r\nX-Inj-" + marker + ": 1", marker + "\nX-Inj-" + marker + ": 1", marker + "\rX-Inj-" + marker + ": 1",
+		marker + "\r\n\r\ninjected body " + marker, marker + "\n\ninjected body", marker + "\r\n X-Inj-" + marker + ": folded",
+		"\r\nX-Inj-" + marker + ": leading", marker + "\r\n", marker + "\r", marker + "\n",
+		marker + " =?UTF-8?q?evil?=", "=?UTF-8?q?" + marker + "?=", marker + "=?utf-8?b?ZXZpbA==?=",
+		marker + strings.Repeat("x", 300), marker + " " + strings.Repeat("word ", 60), marker + strings.Repeat("\u00e9", 120),
+		marker + "Content-Type: text/html", marker + "\r\nContent-Type: text/html\r\n", marker + "\r\n--boundary--", marker + "\r\n.\r\n",
+		marker + "\r\nBcc: x@verif.example",
+	}
+	for _, c := range hostileConsts {
+		out = append(out, marker+c+"w")
+	}
+	return out
+}
